@@ -61,6 +61,9 @@ def key_atoms(e):
         if isinstance(g.elt, ast.Call) and isinstance(g.elt.func, ast.Name) and g.elt.func.id == 'hash':
             return ['HashEach "%s"' % it]
         return ['RawEach "%s"' % it]
+    if isinstance(e, ast.Call) and isinstance(e.func, ast.Name) and e.func.id == 'tuple' and len(e.args) == 1 \
+            and isinstance(e.args[0], ast.Attribute) and isinstance(e.args[0].value, ast.Name) and e.args[0].value.id == 'self':
+        return ['RawEach "%s"' % e.args[0].attr]       # tuple(self._vertices): the items themselves, compared by value
     return [atom(e)]
 
 
